@@ -21,6 +21,10 @@ def build(kind, pos, slots):
     if kind == "IncorrectDocComment" and pos in ("op",):
         doc = "/// @param nosuch: x\n"
     T = "Old" if dep else "int32"
+    if pos.endswith("-nested"):
+        # the deprecated type sits inside an anonymous type of the member: the lint still concerns that member
+        pos = pos[:-len("-nested")]
+        T = {"field": "Sequence<Old?>", "param": "Dictionary<int32, Sequence<Old>>", "ret": "Result<bool, Old>", "efield": "Sequence<Sequence<Old>>", "alias": "Dictionary<string, Old?>"}[pos]
     L = []
     L.append(s("file0"))
     L.append("module M")
@@ -38,10 +42,12 @@ def build(kind, pos, slots):
         L.append("    " + doc2 + s("op") + "op(" + s("sibling") + "p: int32, q: bool)" + (" -> int32" if pos == "op-single" else ""))
         L.append("    " + s("sibling2") + "other()")
         L.append("}")
-    elif pos in ("param", "ret", "op", "iface"):
-        L.append((doc if pos == "iface" else "") + s("def") + "interface I {")
-        L.append("    " + (doc if pos == "op" else "") + s("op") + "op(" + s("member" if pos == "param" else "sibling") + "p: " + (T if pos == "param" else "int32") + ", q: bool) -> ("
-                 + s("member" if pos == "ret" else "sibling2") + "r: " + (T if pos == "ret" else "int32") + ", t: bool)")
+    elif pos in ("param", "ret", "op", "iface", "param-twin", "ret-twin"):
+        # -twin: the parameter and the return member have the same name (they share a scope and a scoped identifier)
+        twin, pos_ = pos.endswith("-twin"), pos.replace("-twin", "")
+        L.append((doc if pos_ == "iface" else "") + s("def") + "interface I {")
+        L.append("    " + (doc if pos_ == "op" else "") + s("op") + "op(" + s("member" if pos_ == "param" else "sibling") + "p: " + (T if pos_ == "param" else "int32") + ", q: bool) -> ("
+                 + s("member" if pos_ == "ret" else "sibling2") + ("p" if twin else "r") + ": " + (T if pos_ == "ret" else "int32") + ", t: bool)")
         L.append("}")
     elif pos in ("efield", "enumerator", "enum"):
         L.append((doc if pos == "enum" else "") + s("def") + "enum E {")
@@ -61,12 +67,16 @@ def build(kind, pos, slots):
 
 
 # which placements enclose (or are) the element concerned, per position
-ENCLOSING = {"field": ["member", "def"], "struct": ["def"], "param": ["member", "op", "def"], "ret": ["member", "op", "def"], "op": ["op", "def"], "op-single": ["op", "def"], "op-void": ["op", "def"], "iface": ["def"],
+ENCLOSING = {"field-nested": ["member", "def"], "param-nested": ["member", "op", "def"], "ret-nested": ["member", "op", "def"], "efield-nested": ["member", "op", "def"], "alias-nested": ["member"],
+             "field": ["member", "def"], "struct": ["def"], "param": ["member", "op", "def"], "ret": ["member", "op", "def"], "param-twin": ["member", "op", "def"], "ret-twin": ["member", "op", "def"], "op": ["op", "def"], "op-single": ["op", "def"], "op-void": ["op", "def"], "iface": ["def"],
              "efield": ["member", "op", "def"], "enumerator": ["op", "def"], "enum": ["def"], "alias": ["member"], "base": ["member"]}
-SLOTS = {"field": ["def", "member", "sibling"], "struct": ["def", "member", "sibling"], "param": ["def", "op", "member", "sibling", "sibling2"], "ret": ["def", "op", "member", "sibling", "sibling2"],
+SLOTS = {"field-nested": ["def", "member", "sibling"], "param-nested": ["def", "op", "member", "sibling", "sibling2"], "ret-nested": ["def", "op", "member", "sibling", "sibling2"],
+         "efield-nested": ["def", "op", "member", "sibling2"], "alias-nested": ["member", "sibling"],
+         "field": ["def", "member", "sibling"], "struct": ["def", "member", "sibling"], "param": ["def", "op", "member", "sibling", "sibling2"], "ret": ["def", "op", "member", "sibling", "sibling2"],
+         "param-twin": ["def", "op", "member", "sibling", "sibling2"], "ret-twin": ["def", "op", "member", "sibling", "sibling2"],
          "op": ["def", "op", "sibling", "sibling2"], "op-single": ["def", "op", "sibling", "sibling2"], "op-void": ["def", "op", "sibling", "sibling2"], "iface": ["def", "op", "sibling"], "efield": ["def", "op", "member", "sibling2"], "enumerator": ["def", "op", "sibling", "sibling2"],
          "enum": ["def", "op", "sibling2"], "alias": ["member", "sibling"], "base": ["member", "op", "sibling", "sibling2"]}
-SCENARIOS = [("Deprecated", p) for p in ("field", "param", "ret", "efield", "alias", "base")] + \
+SCENARIOS = [("Deprecated", p) for p in ("field", "param", "ret", "param-twin", "ret-twin", "efield", "alias", "base", "field-nested", "param-nested", "ret-nested", "efield-nested", "alias-nested")] + \
             [(k, p) for k in ("BrokenDocLink", "MalformedDocComment") for p in ("struct", "field", "iface", "op", "enum", "enumerator", "alias")] + \
             [("IncorrectDocComment", p) for p in ("struct", "field", "iface", "op", "op-single", "op-void", "enum", "alias")] + \
             [(k, p) for k in DOC if "/" in k for p in ("struct", "field", "op", "enumerator")]
@@ -83,12 +93,20 @@ def ents_of(files_sx):
                 out += [bytes.fromhex(x).decode() if x != "-" else "" for x in a[2]]
         return out
 
-    def add(scoped, attrs_sx, parent):
-        idx[scoped] = len(ents)
-        ents.append((allows(attrs_sx), parent))
+    cur = {"file": 0}
+
+    def add(scoped, attrs_sx, parent, span="-", param=False, under="-"):
+        idx[scoped] = len(ents)            # a later entity of the same scoped name takes the entry (parameter and return member), as in the AST
+        ents.append((allows(attrs_sx), parent, span, param, cur["file"], under))
         return len(ents) - 1
+
+    def sp4(x):
+        # "file:r:c-r:c" or "r:c-r:c" -> "r.c.r.c"
+        a, b = x.rsplit("-", 1)
+        return ".".join(a.split(":")[-2:] + b.split(":")[-2:])
     fattrs = []
-    for f in files_sx:
+    for fi, f in enumerate(files_sx):
+        cur["file"] = fi
         fa = child(f, "attrs")
         fattrs.append(allows(fa))
         mod = child(f, "module")
@@ -97,21 +115,23 @@ def ents_of(files_sx):
             k, name = d[0], d[1]
             sc = m + "::" + name
             at = child(d, "attrs")
-            me = add(sc, at, None)
+            dspan = next((x for x in d[2:] if isinstance(x, str) and "-" in x and ":" in x and x[0].isdigit() and x != d[2]), d[2])
+            me = add(sc, at, None, sp4(dspan), False, sp4(d[-1][1]) if k == "alias" else "-")
             if k == "struct":
                 for fl in child(d, "fields")[1:]:
-                    add(sc + "::" + fl[1], child(fl, "attrs"), me)
+                    add(sc + "::" + fl[1], child(fl, "attrs"), me, sp4(fl[4]))
             elif k == "interface":
                 for o in child(d, "ops")[1:]:
-                    oe = add(sc + "::" + o[1], child(o, "attrs"), me)
+                    oe = add(sc + "::" + o[1], child(o, "attrs"), me, sp4(o[4]))
                     for p in child(o, "params")[1:] + child(o, "rets")[1:]:
-                        add(sc + "::" + o[1] + "::" + p[1], child(p, "attrs"), oe)
+                        add(sc + "::" + o[1] + "::" + p[1], child(p, "attrs"), oe, sp4(p[5]), True)
             elif k == "enum":
                 for e in child(d, "enumerators")[1:]:
-                    ee = add(sc + "::" + e[1], child(e, "attrs"), me)
+                    espan = next((x for x in e[3:] if isinstance(x, str) and "-" in x and ":" in x and x[0].isdigit()), "-")
+                    ee = add(sc + "::" + e[1], child(e, "attrs"), me, sp4(espan) if espan != "-" else "-")
                     fl = child(e, "fields")[1:]
                     for x in ([] if fl == ["-"] else fl):
-                        add(sc + "::" + e[1] + "::" + x[1], child(x, "attrs"), ee)
+                        add(sc + "::" + e[1] + "::" + x[1], child(x, "attrs"), ee, sp4(x[4]))
     return ents, idx, fattrs
 
 
@@ -141,14 +161,21 @@ def run(ck):
             sil = any(((lint in a) or ("All" in a)) and (p in ("file0",) or p in ENCLOSING[pos]) for p, a in ((p1, a1), (p2, a2)))
             cases.append((kind, pos, [], {p1: a1, p2: a2}, sil))
 
+    # lints the parser itself raises are subject to the same suppressions when another file stops the compilation with a syntax error
+    more = []
+    for kind, pos, cli, slots, silenced in cases:
+        if kind.startswith("MalformedDocComment") and (cli or slots) and rng.random() < 0.5:
+            more.append((kind, pos, cli, dict(slots, __broken__=["other file"]), silenced))
+    cases += more
+
     def attr(args, directive="allow"):
         return "[%s(%s)] " % (directive, ", ".join(args))
     lines, base_lines = [], []
     for kind, pos, cli, slots, _ in cases:
         def texts(directive):
-            sl = {k: (("[[%s(%s)]]" % (directive, ", ".join(v))) if k in ("file0", "file1") else attr(v, directive)) for k, v in slots.items()}
+            sl = {k: (("[[%s(%s)]]" % (directive, ", ".join(v))) if k in ("file0", "file1") else attr(v, directive)) for k, v in slots.items() if k != "__broken__"}
             t0 = build(kind, pos, sl)
-            t1 = (sl.get("file1", "") + "\n" if "file1" in sl else "") + other_file
+            t1 = (sl.get("file1", "") + "\n" if "file1" in sl else "") + (other_file if "__broken__" not in slots else "module N\nstruct X { y: int32 }\nstruct {\n")
             return t0, t1
         opts = ",".join("A:" + c for c in cli) or "-"
         t0, t1 = texts("allow")
@@ -158,7 +185,7 @@ def run(ck):
     o = core.run_impl("dump", lines, chunk=300, timeout=120)
     ob = core.run_impl("dump", base_lines, chunk=300, timeout=120)
     mlines, meta = [], []
-    st = ck.stream("placement-matrix", description="every lint kind x element position x placement of the suppression (command line incl. case variants, file attribute, other file, enclosing definition/operation, the element itself, siblings, unrelated definition) x argument (that lint, All, another, several); "
+    st = ck.stream("placement-matrix", description="every lint kind x element position (also: a parameter and a return member of one name, the deprecated type inside an anonymous type of the member) x placement of the suppression (command line incl. case variants, file attribute, other file, enclosing definition/operation, the element itself, siblings, unrelated definition) x argument (that lint, All, another, several); "
                    "observables: level of every diagnostic; diagnostics and AST compared with the same program where 'allow' is replaced by a foreign attribute of the same length")
     for (kind, pos, cli, slots, silenced), line, oo, bb in zip(cases, lines, o, ob):
         ck.count("placement-matrix", line, kind="%s@%s" % (kind, pos))
@@ -209,9 +236,14 @@ def model_line(files_sx, diags, cli):
     ds = []
     for d in diags:
         f = d["span"].split(":")[0].replace("string-", "") if d["span"] != "-" else "-"
-        sc = idx.get(d["scope"], None) if d["scope"] else None
-        ds.append("%s:%s:%s" % ("E" if d["level"] == "Error" and d["code"].startswith("E") else d["code"], f, "-" if sc is None else sc))
-    return "lint %s F %s E %s D %s" % (",".join(cli) or "-", " ".join(",".join(a) or "-" for a in fattrs), " ".join("%s:%s" % (",".join(a) or "-", "-" if p is None else p) for a, p in ents), " ".join(ds))
+        sc = idx.get(d["scope"], "m") if d["scope"] else None       # m: a scope (a module's) that names no entity
+        loc = "-"
+        if d["span"] != "-":
+            a, b = d["span"].rsplit("-", 1)
+            loc = ".".join(a.split(":")[-2:] + b.split(":")[-2:])
+        ds.append("%s:%s:%s:%s" % ("E" if d["level"] == "Error" and d["code"].startswith("E") else d["code"], f, "-" if sc is None else sc, loc))
+    return "lint %s F %s E %s D %s" % (",".join(cli) or "-", " ".join(",".join(a) or "-" for a in fattrs),
+                                      " ".join("%s:%s:%s:%d:%d:%s" % (",".join(a) or "-", "-" if p is None else p, sp if sp != "-" else "0.0.0.0", 1 if pr else 0, fl, un) for a, p, sp, pr, fl, un in ents), " ".join(ds))
 
 
 def random_programs(ck):
